@@ -142,6 +142,9 @@ func (u *Unit) evalClauseVal(c *Clause, st, old *State, local map[string]Val, rv
 		case kind == "ghost":
 			if v, ok := local[name]; ok {
 				val, have = v, true
+			} else if name == "idx" && len(u.ghostIdx) > 0 {
+				// inside the body of a range loop: the index of the current iteration
+				val, have = u.ghostIdx[len(u.ghostIdx)-1], true
 			}
 		case kind == "bind":
 			// typeinv / lemma parameter bound by name
@@ -425,6 +428,20 @@ func (u *Unit) evalGhostCall(call *ast.CallExpr, f *types.Func, st *State) []Val
 		setSort := "(Array " + ks + " Bool)"
 		dom := u.mapDom(st, m, mt)
 		return []Val{{T: ite(eq(m.T, "0"), "((as const "+setSort+") false)", dom), S: setSort, GT: typeOf(u.info, call)}}
+	case "fst", "snd":
+		var vs []Val
+		if len(call.Args) == 1 {
+			vs = u.evalMulti(call.Args[0], st)
+		} else {
+			vs = []Val{u.evalExpr(call.Args[0], st), u.evalExpr(call.Args[1], st)}
+		}
+		if len(vs) != 2 {
+			u.fail("fst/snd need a two-valued argument (%s)", u.pos(call))
+		}
+		if f.Name() == "fst" {
+			return vs[:1]
+		}
+		return vs[1:]
 	case "same":
 		a := u.evalExpr(call.Args[0], st)
 		c := u.evalExpr(call.Args[1], st)
